@@ -34,9 +34,11 @@ PARTIAL = ["the solver's symbolic executor (determine_constraints / constraints.
            "differentially on the implementation"]
 TRUSTED = ["oracles c05_sign / c05_verify / c05_pub / c05_sighash answered with pycoin's secp256k1 generator and "
            "SolutionChecker digests (properties C01/C04 cover those)"]
-ASSUMPTIONS = ["theorem hypotheses: sign => verifies; sign's output is strict DER with low S and parses; a signature of one "
-               "listed key does not verify under another listed key; the placeholder verifies under no listed key; "
-               "the digest is defined for the effective hash type"]
+ASSUMPTIONS = ["theorem hypotheses on the abstract signer: sign => verifies; sign's output is strict DER with low S "
+               "(that the lax parser accepts it is proved); 20/32-byte hashes; well-formed SEC keys; for the partial-signing "
+               "theorem also: a signature of one listed key does not verify under another listed key, the placeholder "
+               "verifies under no listed key; the digest is defined for the effective hash type. All are shown jointly "
+               "satisfiable on a toy instance (Proofs/SolveToyC05.v)"]
 
 SYMS = ("btc", "xtn", "ltc", "bch", "btg")
 NETS = {s: importlib.import_module("pycoin.symbols." + s).network for s in SYMS}
